@@ -6,7 +6,9 @@ from .cli import *
 FORMATTED = "local x = 1\n"
 CONTENT = {
     "formatted": lambda i: ("local x%d = %d\n" % (i, i)).encode(),
-    "unformatted": lambda i: ("local   x%d   =   %d\nlocal y = {1,2,\n3}\n" % (i, i)).encode(),
+    # differs from its formatted form: visibly, or (i = 1) only by the missing final line ending, or (i = 3) only by CR LF line endings
+    "unformatted": lambda i: (("local x%d = %d\nlocal y = 2" % (i, i)) if i == 1 else ("local x%d = %d\r\nlocal y = 2\r\n" % (i, i)) if i == 3
+                              else ("local   x%d   =   %d\nlocal y = {1,2,\n3}\n" % (i, i))).encode(),
     "unparseable": lambda i: ("local = = %d\n" % i).encode(),
     # not UTF-8: either nowhere near Lua, or (odd i) inside a string and a comment of an unformatted but lexable program
     "unreadable": lambda i: b"\xff\xfe local x = 1\n" if i % 2 == 0 else ("local   s%d   =   \"caf" % i).encode() + b"\xe9\" -- \xff\n",
